@@ -481,7 +481,7 @@ def run_large(concepts, case, spec):
     inside the ordered-set helper only show beyond a few dozen / a few hundred names."""
     D = concepts.Definition
     rng = random.Random(f"{spec['seed']}/c13large/{case['n']}")
-    no, np_ = rng.choice([(70, 6), (140, 9), (300, 5), (420, 4), (8, 280), (5, 90)])
+    no, np_ = rng.choice([(70, 6), (140, 9), (300, 5), (420, 4), (8, 280), (5, 90), (1100, 3), (3, 2100), (2600, 2)])
     objs = [f'o{i:03d}' for i in range(no)]
     props = [f'p{j:03d}' for j in range(np_)]
     d = D(objs, props, [tuple(rng.random() < .3 for _ in props) for _ in objs])
